@@ -1,5 +1,5 @@
 """Combo tables of `RankPair::into_iter` (shared by C05, C12, C10)."""
-from sa import idioms as I, prov as P
+from sa import idioms as I, loops as L, prov as P
 from sa.report import Unrecognised
 
 RANK_PAIR = "hand_range::rank_pair::RankPair"
@@ -15,6 +15,8 @@ def extract(F):
     new_path = CARD_PAIR + "::new"
     card_new = CARD + "::new"
     tables = {}
+    fl = L.for_loops(fn, pr)
+    comprehension_arms = set()
     for bi, t in fn.calls():
         if bi not in fn.cfg.reachable or I.callee_path(t) != new_path:
             continue
@@ -38,8 +40,17 @@ def extract(F):
                 raise Unrecognised("combos", f"combo rank is not a field of the {arm} variant: {P.show(rk)[:60]}", fn.path, fn.line)
             sname = su[2] if su[0] == "enumc" else (su[1].rsplit("::", 1)[-1] if su[0] == "agg" and not su[2] else None)
             if sname not in SUITS:
-                raise Unrecognised("combos", f"combo suit is not a constant: {P.show(su)[:60]}", fn.path, fn.line)
+                # comprehension form: the suit is the item of an enclosing loop over all four suits
+                lp = suit_loop(F, fn, pr, fl, bi, su)
+                if lp is None:
+                    raise Unrecognised("combos", f"combo suit is neither a constant nor the item of a loop over all suits: {P.show(su)[:60]}", fn.path, fn.line)
+                sname = ("var", lp.header)
             cards.append((rk[2], sname))
+        if any(isinstance(sn, tuple) for _k, sn in cards):
+            for combo in expand_comprehension(F, fn, pr, fl, bi, t, cards):
+                tables.setdefault(arm, []).append((combo, bi))
+            comprehension_arms.add(arm)
+            continue
         tables.setdefault(arm, []).append((tuple(cards), bi))
     # each arm's combos must be exactly the elements of one array literal (vec![..]) in that arm
     arrays = {}
@@ -51,11 +62,88 @@ def extract(F):
                 arrays.setdefault(bi, []).append(t)
     n_arr = sum(len(v) for v in arrays.values())
     elems = [o for v in arrays.values() for t in v for o in t[2]]
-    n_calls = sum(len(v) for v in tables.values())
-    if n_arr != len(tables) or len(elems) != n_calls or any(not (o[0] == "call" and o[1] == new_path) for o in elems):
+    n_calls = sum(len(v) for k, v in tables.items() if k not in comprehension_arms)
+    if n_arr != len([k for k in tables if k not in comprehension_arms]) or len(elems) != n_calls or any(not (o[0] == "call" and o[1] == new_path) for o in elems):
         raise Unrecognised("combos", f"combos are not the elements of one array literal per arm ({n_arr} arrays, {len(elems)} elements, {n_calls} calls)",
                            fn.path, fn.line)
     return fn, {k: [c for c, _ in v] for k, v in tables.items()}
+
+
+def _all_suits_domain(F, fn, lp):
+    """the loop runs over all four suits, each once: SuitRange::all() or a constant array of the four suits, not adapted"""
+    src, chain = lp.chain()
+    if any(c.rsplit("::", 1)[-1] not in ("into_iter", "iter") for c in chain):
+        return False
+    s = P.strip(src, calls=False)
+    if s[0] == "call" and s[1] == "card::suit_range::SuitRange::all" and not s[2]:
+        return True
+    vals = None
+    if s[0] == "named":
+        v = F.const_value(s[1])
+        if v and "array" in v:
+            vals = [(e.get("variant") if isinstance(e, dict) else e) for e in v["array"]]
+    if s[0] == "agg" and s[1] == "array":
+        vals = []
+        for e in s[2]:
+            e = P.strip(e)
+            vals.append(e[2] if e[0] == "enumc" else (e[1].rsplit("::", 1)[-1] if e[0] == "agg" and not e[2] else None))
+    return vals is not None and sorted(str(v) for v in vals) == sorted(SUITS)
+
+
+def suit_loop(F, fn, pr, fl, bi, su):
+    for lp in fl:
+        if bi in lp.body and P.strip(su) == P.strip(lp.item_term) and _all_suits_domain(F, fn, lp):
+            return lp
+    return None
+
+
+def expand_comprehension(F, fn, pr, fl, bi, t, cards):
+    """combos pushed by `for a in SUITS { for b in SUITS { if a REL b { v.push(CardPair::new(Card::new(r, a), Card::new(k, b))) } } }`:
+    the set {(a, b) : REL} written out (a finite comprehension over the four suits, no execution)"""
+    loops = {sn[1]: [lp for lp in fl if lp.header == sn[1]][0] for _k, sn in cards if isinstance(sn, tuple)}
+    # every loop around the call is one of the variable loops (nothing else repeats the push)
+    for lp in fl:
+        if bi in lp.body and lp.header not in loops:
+            raise Unrecognised("combos", "a combo is pushed inside a loop that does not supply one of its suits", fn.path, fn.line)
+    items = {h: P.strip(lp.item_term) for h, lp in loops.items()}
+    # the conditions under which the call runs: relations between the loop items only
+    rels = []
+    inner = min(loops.values(), key=lambda lp: len(lp.body))
+    outer = max(loops.values(), key=lambda lp: len(lp.body))
+    loop_sw = {fn.blocks[lp.next_block]["term"]["to"] for lp in fl}
+    rel_by_edge = {}
+    for (b, lab, op, x, y) in I.rel_edges(fn, pr, F):
+        rel_by_edge[(b, lab)] = (op, P.strip(x), P.strip(y))
+    for (src, lab, dst) in fn.cfg.dominating_edges(bi):
+        if src not in outer.body or src in loop_sw:
+            continue
+        tt = fn.blocks[src]["term"]
+        if tt["k"] != "switch":
+            continue
+        r = rel_by_edge.get((src, lab))
+        hx = [h for h, it in items.items() if r and r[1] == it]
+        hy = [h for h, it in items.items() if r and r[2] == it]
+        if r is None or r[0] not in ("Eq", "Ne") or not hx or not hy:
+            raise Unrecognised("combos", f"a combo is pushed under a condition that is not ==/!= between the loop suits (line {fn.blocks[src]['line']})", fn.path, fn.line)
+        rels.append((r[0], hx[0], hy[0]))
+    # the pair is pushed (once per iteration) onto the vector the arm returns
+    call_t = pr.call_term(t, bi)
+    pushed = [pb for pb, ptm in fn.calls() if ptm["callee"].get("name") == "push" and pb in inner.body and len(ptm["args"]) == 2
+              and P.strip(pr.operand(ptm["args"][1]), calls=False) == call_t]
+    if len(pushed) != 1 or not fn.cfg.dominates(bi, pushed[0]):
+        raise Unrecognised("combos", "the combo built in the loop is not pushed exactly once per iteration", fn.path, fn.line)
+    vec = P.strip(pr.operand(fn.blocks[pushed[0]]["term"]["args"][0]), calls=False)
+    rets = [P.strip(a, calls=False) for a in P.alts(pr.local(0))]
+    if not any(r[0] == "call" and r[1].rsplit("::", 1)[-1] == "into_iter" and r[2] and P.strip(r[2][0], calls=False) == vec for r in rets):
+        raise Unrecognised("combos", "the vector the loop fills is not the one the arm iterates", fn.path, fn.line)
+    hs = sorted(loops)
+    out = []
+    import itertools
+    for assign in itertools.product(SUITS, repeat=len(hs)):
+        env = dict(zip(hs, assign))
+        if all((env[a] == env[b_]) == (op == "Eq") for op, a, b_ in rels):
+            out.append(tuple((k, env[sn[1]] if isinstance(sn, tuple) else sn) for k, sn in cards))
+    return out
 
 
 def expected():
